@@ -12,11 +12,19 @@ by the correspondence run on every small and many random templates):
    renumbered with a running counter when several remain (`ellipsis_renumbered`);
  * copy j of the repeated group is produced under the index stack `outer ++ [j]`, j = 0 … n
    (`repeat_unfold`), so nested ellipses are expanded in every copy.
-`unique_names_partial`: uniqueness of all generated names (injectivity of suffixing for base
-names without `[`) is checked by the factory in the model (`mkList` refuses duplicates) and by
-the oracle on the real code; it is not yet a theorem.
+ * generated names are unique: suffixing a base name that has no `[` of its own is injective in
+   (base name, copy-index stack) (`names_injective`), so distinct (variable, copy) pairs never
+   collide (`generated_names_distinct`); the renumbered ellipses `...[k]` are distinct
+   (`ellipses_distinct`); for a repeated group of own variables the model emits exactly the
+   suffixed names copy by copy (`repeat_emits_copies`) and no name twice (`unique_names_one_level`).
+`unique_names_partial`: for arbitrary nested groups the reduction "every emitted variable has
+its own (base name, stack) pair" is not a theorem; there the factory's duplicate check in the
+model (`mkList`) and the oracle on the real code decide. Base names that already carry an index
+group (`x[1]`) are outside the injectivity lemma — and indeed collide with generated names
+(`indexed_base_collides`), which is why the real code refuses such expansions.
 -/
 import SecsModel.Model.Fill
+import SecsModel.Proofs.EllipsisNames
 import SecsModel.Generated.Facts
 namespace Secs.C10
 open Secs
@@ -133,6 +141,59 @@ theorem zero_removes (child : Tmpl → FillSt → Option (Tmpl × FillSt)) (mult
     (a ++ b).length = xs.len - 1 := by
   rw [List.length_append, emit_length _ _ _ _ _ _ h1, emit_length _ _ _ _ _ _ h2, take_len xs p (by omega), drop_len]
   omega
+
+/-! ### uniqueness of generated names -/
+
+theorem names_injective (n1 n2 : Name) (s1 s2 : List Nat) (h1 : plainName n1 = true) (h2 : plainName n2 = true)
+    (h : n1 ++ idxSuffix s1 = n2 ++ idxSuffix s2) : n1 = n2 ∧ s1 = s2 := suffixed_inj n1 n2 s1 s2 h1 h2 h
+
+theorem generated_names_distinct (pairs : List (Name × List Nat)) (hp : ∀ p ∈ pairs, plainName p.1 = true)
+    (hn : pairs.Nodup) : (pairs.map (fun p => p.1 ++ idxSuffix p.2)).Nodup := generated_nodup pairs hp hn
+
+theorem ellipses_distinct (a b : Nat)
+    (h : ([46, 46, 46, 91] : Bytes) ++ decDigits a ++ [93] = [46, 46, 46, 91] ++ decDigits b ++ [93]) : a = b :=
+  ellipsis_names_inj a b h
+
+/-- a group consisting of the list's own variables -/
+def varsOnly : List Name → Slots
+  | [] => .nil
+  | n :: r => .var n (varsOnly r)
+
+theorem emit_varsOnly (child : Tmpl → FillSt → Option (Tmpl × FillSt)) (multiple : Bool) :
+    ∀ (names : List Name) (st : FillSt), (∀ x ∈ names, isEllipsis x = false) →
+      emitSlots child multiple (varsOnly names) st = some (names.map (fun x => GoVal.str (x ++ idxSuffix st.stack)), st)
+  | [], st, _ => rfl
+  | n :: r, st, h => by
+    have hn := h n (by simp)
+    simp only [varsOnly, emitSlots, name_suffixed multiple st n hn,
+      emit_varsOnly child multiple r st (fun x hx => h x (by simp [hx])), Option.map_some, List.map_cons]
+
+/-- the repeated group is emitted copy by copy, copy j under the stack `outer ++ [j]` -/
+theorem repeat_emits_copies (child : Tmpl → FillSt → Option (Tmpl × FillSt)) (multiple : Bool)
+    (names : List Name) (outer : List Nat) (hne : ∀ x ∈ names, isEllipsis x = false) :
+    ∀ (reps j count : Nat),
+      emitRepeat child multiple (varsOnly names) outer reps j count =
+        some ((List.range' j reps).flatMap (fun j => names.map (fun x => GoVal.str (x ++ idxSuffix (outer ++ [j])))), count)
+  | 0, _, _ => rfl
+  | reps + 1, j, count => by
+    simp only [emitRepeat, emit_varsOnly child multiple names ⟨outer ++ [j], count⟩ hne,
+      repeat_emits_copies child multiple names outer hne reps (j + 1) count, Option.map_some,
+      List.range'_succ, List.flatMap_cons]
+
+/-- **One level of expansion never produces a name twice**: n + 1 copies of a group of distinct
+plain variable names. -/
+theorem unique_names_one_level (names : List Name) (outer : List Nat) (n : Nat)
+    (hp : ∀ x ∈ names, plainName x = true) (hn : names.Nodup) :
+    ((List.range (n + 1)).flatMap (fun j => names.map (fun x => x ++ idxSuffix (outer ++ [j])))).Nodup :=
+  copies_nodup names outer n hp hn
+
+/-- a base name that already carries an index group collides with a generated name: `x[1]` in
+copy 0 … is not what collides, but `x` in copy 1 and the base name `x[1]` kept outside the group -/
+theorem indexed_base_collides : ([120] : Name) ++ idxSuffix [1] = [120, 91, 49, 93] ++ idxSuffix [] := by
+  have : decDigits 1 = [49] := by rw [decDigits]; simp
+  simp [idxSuffix, this]
+
+example : plainName [120] = true ∧ plainName [120, 91, 49, 93] = false := by decide
 
 /-- tie to the source: the ellipsis pattern -/
 theorem facts_ellipsis_pattern :
